@@ -60,7 +60,7 @@ def _work(task):
             r = solve.discharge(ob, timeout_s)
             rec = dict(id=ob.id, kind=ob.kind, label=ob.label, props=sorted(effective_props(ob, fn_props)), line=ob.line,
                        note=ob.note, expect=ob.expect, verdict=r['verdict'], backend=r['backend'], time=round(r['time'], 4),
-                       model=r['model'], goal=str(ob.goal)[:600], finding=None)
+                       model=r['model'], goal=ob.goal.sexpr()[:600], finding=None)
             if r['verdict'] == 'refuted':
                 for f in findings:
                     if f['obligation'] == ob.id and kind == 'fn':
